@@ -286,6 +286,7 @@ func VerifH06() {
 		gcOp = &lop{kind: 7, key: "a"}
 		ops = append(ops, gcOp)
 	}
+	nd.SpawnRunsFirst(true)
 	nd.SetPreemptionBound(P)
 	go func() {
 		for _, o := range opsB {
